@@ -662,6 +662,66 @@ fn py_session(run: &mut Run, idx: usize, rng: &mut Rng, w: &World) {
     run.bump("python-session-ok");
 }
 
+/// surface projections (`Config.projection` of the dictionary x `projection=` of `Dictionary.create`): `surface()`/`str()` of
+/// every morpheme = the EFFECTIVE projection (the per-tokenizer one if given, else the dictionary's, else the surface) applied
+/// to the library's morpheme; `raw_surface()` and begin/end stay those of the surface.  Oracle only (key c19:py:projection).
+fn py_projection_sweep(run: &mut Run, idx: usize, rng: &mut Rng, w: &World) {
+    let projs = [None, Some("surface"), Some("normalized"), Some("reading"), Some("dictionary")];
+    let base = w.cfg.replacen("{", &format!("{{\"systemDict\":\"system.dic\",\"userDict\":[{}],", (0..w.user_bins.len()).map(|i| format!("\"user{}.dic\"", i)).collect::<Vec<_>>().join(",")), 1);
+    std::fs::write(w.wd.path.join("system.dic"), &w.system_bin).unwrap();
+    for (i, u) in w.user_bins.iter().enumerate() { std::fs::write(w.wd.path.join(format!("user{}.dic", i)), u).unwrap(); }
+    let mut cfgs = vec![];
+    for p in projs.iter() {
+        let name = format!("cfg_proj_{}.json", p.unwrap_or("none"));
+        let text = match p { None => base.clone(), Some(p) => base.replacen("{", &format!("{{\"projection\":\"{}\",", p), 1) };
+        w.wd.write(&name, &text);
+        cfgs.push(w.wd.path.join(&name));
+    }
+    let marked: Vec<&Row> = w.lex.rows.iter().filter(|r| r.left >= 0 && (r.reading != r.surface || r.norm != r.surface || r.headword != r.surface)).collect();
+    let mut cases = vec![];
+    let mut meta = vec![];
+    for (pi, p) in projs.iter().enumerate() {
+        for q in projs.iter() {
+            let mode = mode_of(rng.below(3));
+            let mut text = gen_text(rng, w, 6);
+            if !marked.is_empty() { for _ in 0..2 { text.push_str(&rng.pick(&marked).surface); } }
+            cases.push(serde_json::json!({"cfg": cfgs[pi], "proj": q, "mode": mode_str(mode), "text": text}));
+            meta.push((*p, *q, mode, text));
+        }
+    }
+    let script = serde_json::json!({"pkg": py_pkg(), "resource_dir": w.wd.path, "cases": cases});
+    let spath = w.wd.path.join("proj_script.json");
+    std::fs::write(&spath, serde_json::to_string(&script).unwrap()).unwrap();
+    let root = std::env::var("VERIF_ROOT").unwrap_or_else(|_| "/verif".to_string());
+    let outp = Command::new("python3").arg(format!("{}/pyharness/run_proj.py", root)).arg(&spath).output();
+    let outp = match outp { Ok(o) => o, Err(e) => { run.bump(&format!("projection-spawn-error:{}", e)); return; } };
+    let got: Vec<serde_json::Value> = serde_json::from_slice(&outp.stdout).unwrap_or_default();
+    if got.len() != meta.len() {
+        run.fail(idx, "c19:py:projection:crash", &format!("the projection sweep ended early ({} of {} answers, status {:?}): {}", got.len(), meta.len(), outp.status.code(), String::from_utf8_lossy(&outp.stderr).chars().rev().take(300).collect::<String>().chars().rev().collect::<String>()));
+        return;
+    }
+    for (k, (p, q, mode, text)) in meta.iter().enumerate() {
+        let eff = q.or(*p).unwrap_or("surface");
+        run.bump(&format!("python-projection:dict-{}:create-{}", p.unwrap_or("none"), q.unwrap_or("none")));
+        let lib = match crate::dict::tokenize(&w.dic, text, *mode) { Ok(Ok(ms)) => ms, _ => { run.bump("python-projection:library-error-skipped"); continue; } };
+        let g = &got[k];
+        if g["ok"] != serde_json::Value::Bool(true) {
+            run.fail(idx, "c19:py:projection", &format!("Dictionary(projection={:?}).create(projection={:?}).tokenize({:?}) raised {} {}", p, q, text, g["exc"], g["msg"]));
+            return;
+        }
+        let want: Vec<serde_json::Value> = lib.iter().map(|m| {
+            let s = match eff { "normalized" => m.norm.clone(), "reading" => m.reading.clone(), "dictionary" => m.dict_form.clone(), _ => m.surface.clone() };
+            serde_json::json!([s, s, m.surface, m.begin_c, m.end_c])
+        }).collect();
+        if g["ms"] != serde_json::Value::Array(want.clone()) {
+            run.fail(idx, "c19:py:projection", &format!("Dictionary(projection={:?}).create(mode {:?}, projection={:?}).tokenize({:?}): [surface(), str(), raw_surface(), begin, end] = {} but the effective projection `{}` of the library's morphemes gives {}",
+                p, mode, q, text, g["ms"].to_string().chars().take(300).collect::<String>(), eff, serde_json::Value::Array(want).to_string().chars().take(300).collect::<String>()));
+            return;
+        }
+    }
+    run.bump("python-projection-sweep-ok");
+}
+
 fn lists_len_at(payload: &str) -> i64 {
     payload.split("len=").nth(1).and_then(|x| x.split(' ').next()).and_then(|x| x.parse().ok()).unwrap_or(-1)
 }
@@ -726,6 +786,11 @@ sequences) + call-sequence runs of the built extension (see extra.python).".into
             Ok(w) => w,
             Err(e) => { run.bump(&format!("world-error:{}", e.chars().take(50).collect::<String>())); continue; }
         };
+        if idx % 100 == 7 {
+            if std::path::Path::new(&format!("{}/sudachipy/sudachipy.so", py_pkg())).exists() { py_projection_sweep(run, idx, &mut rng, w); }
+            else { run.fail_with_line(idx, "", "c19:py:not-built", "the Python extension was not built"); }
+            continue;
+        }
         if idx % 15 == 3 {
             if std::path::Path::new(&format!("{}/sudachipy/sudachipy.so", py_pkg())).exists() {
                 py_session(run, idx, &mut rng, w);
